@@ -293,7 +293,12 @@ func (s *c05Spec) commitRoundTrip(view string, b *commit.Buffer, c commit.Chunk,
 	other := commit.NewBuffer(8)
 	other.Reset("other")
 	other.PutUint16(commit.Put, c.Min()+3, 0xbeef)
-	cm := commit.Commit{ID: id, Chunk: c, Updates: []*commit.Buffer{b, other}}
+	// a column of the same transaction that was written in ANOTHER block only: the
+	// transaction's buffers are shared by all of its commits, each commit carries its own block
+	foreign := commit.NewBuffer(8)
+	foreign.Reset("foreign")
+	foreign.PutUint16(commit.Put, (c+1).Min()+5, 0xf00d)
+	cm := commit.Commit{ID: id, Chunk: c, Updates: []*commit.Buffer{b, other, foreign}}
 	if view == "clone" {
 		return cm.Clone(), nil
 	}
@@ -324,9 +329,17 @@ func (s *c05Spec) checkCommit(view string, got commit.Commit, err error, c commi
 			main = u
 		case "other":
 			other = u
+		case "foreign":
+			// nothing of this column belongs to the commit's block
+			for _, blk := range []commit.Chunk{c, c + 1} {
+				if fg, _ := readChunk(u, blk); len(fg) != 0 {
+					*vs = append(*vs, eng.Violation{Assert: "commit-" + view + "/foreign-block", Witness: "a commit carries operations of another block",
+						Detail: fmt.Sprintf("seq {%s} commit of block %d: column written only in block %d delivers %s when block %d is read", lbl, c, c+1, recsStr(fg), blk)})
+				}
+			}
 		}
 	}
-	if main == nil || other == nil || len(got.Updates) != 2 {
+	if main == nil || other == nil || len(got.Updates) < 2 || len(got.Updates) > 3 {
 		*vs = append(*vs, eng.Violation{Assert: "commit-" + view + "/buffers", Witness: "update buffers not preserved", Detail: fmt.Sprintf("seq {%s} block %d: %d buffers", lbl, c, len(got.Updates))})
 		return
 	}
